@@ -1129,6 +1129,7 @@ func run(r *chk.Run) {
 	// end to end (engine E2): the same header fields through the packet reader and
 	// the streamer: every leading timestamp byte, a second format description
 	e2.RunHeaderBytes(r)
+	e2.RunServerVersions(r)
 	r.Eval(e.evals.Load())
 	r.DistinctN(e.distinct.Load())
 	r.Rule("odometer enumeration of the product of the listed field domains per event kind; every event is built by the independent reference encoder, announced by a reference FORMAT_DESCRIPTION event decoded with Format(), passed through IsValid / header accessors / every Is* predicate / StripChecksum(announced algorithm) / the body accessor, and compared with the abstract values written; the same abstract event is executed in the three checksum configurations and the stripped event must carry exactly the body of the checksum-less twin. evaluations = (event, flavor constructor) executions, distinct = distinct event byte strings (each decoded by one or both flavor constructors)")
